@@ -169,6 +169,9 @@ type World struct {
 	Feeders []*Actor
 	Voter   *Actor
 	All     []*Actor
+	// PhaseEvents: events emitted so far in the running begin- / end-block, refreshed before every
+	// module-probe call
+	PhaseEvents []abci.Event
 	// ElysMarketPool: id of the second oracle pool (uelys/uusdc) with leverage enabled, 0 if none
 	ElysMarketPool uint64
 	byAddr         map[string]*Actor
@@ -265,6 +268,9 @@ func (w *World) onPostTx(ctx sdk.Context, success bool) {
 }
 
 func (w *World) onModule(ctx sdk.Context, module, phase string, before bool) {
+	// the events emitted so far in this begin- / end-block (probes get a branched context with an
+	// event manager of its own)
+	w.PhaseEvents = ctx.EventManager().ABCIEvents()
 	for _, p := range w.probes {
 		if pp, ok := p.(ModuleProbe); ok {
 			rc, _ := ctx.CacheContext()
